@@ -642,19 +642,43 @@ class Inliner:
                 continue
             if isinstance(st, (ast.Assign, ast.AnnAssign)) and st.value is not None:
                 tg = st.targets[0] if isinstance(st, ast.Assign) and len(st.targets) == 1 else (st.target if isinstance(st, ast.AnnAssign) else None)
-                if not isinstance(tg, ast.Name) or not norm.is_pure(st.value, _PURE_EXT):
+                if isinstance(tg, ast.Tuple) and isinstance(st.value, ast.Tuple) and len(tg.elts) == len(st.value.elts) \
+                        and all(isinstance(t_, ast.Name) for t_ in tg.elts) and norm.is_pure(st.value, _PURE_EXT):
+                    vals_ = [norm._Subst(dict(env)).visit(copy.deepcopy(v_)) for v_ in st.value.elts]
+                    for t_, v_ in zip(tg.elts, vals_):
+                        env[t_.id] = v_
+                    continue
+                if not isinstance(tg, ast.Name):
                     return None
-                env[tg.id] = norm._Subst(dict(env)).visit(copy.deepcopy(st.value))
+                if not norm.is_pure(st.value, _PURE_EXT):
+                    # an effectful temporary: written into the result where it is read, if it is read exactly once there and the
+                    # temporaries are read in the order they were computed (checked at the return)
+                    env.setdefault("\0impure", [])
+                    env["\0impure"] = list(env["\0impure"]) + [tg.id]
+                env[tg.id] = norm._Subst({k: v for k, v in env.items() if k != "\0impure"}).visit(copy.deepcopy(st.value))
                 continue
             if isinstance(st, ast.Return):
-                return norm._Subst(dict(env)).visit(copy.deepcopy(st.value)) if st.value is not None else ast.Constant(None)
+                imp = env.get("\0impure", [])
+                if imp:
+                    if st.value is None:
+                        return None
+                    order = [n.id for n in ast.walk(st.value) if isinstance(n, ast.Name) and n.id in imp]
+                    # ast.walk is breadth-first: compare by source position instead
+                    order = [n.id for n in sorted((n for n in ast.walk(st.value) if isinstance(n, ast.Name) and n.id in imp),
+                                                  key=lambda n: (getattr(n, "lineno", 0), getattr(n, "col_offset", 0)))]
+                    own_calls = [c for c in ast.walk(st.value) if isinstance(c, ast.Call) and not norm.is_pure(c, _PURE_EXT)]
+                    if order != imp or own_calls:
+                        return None
+                return norm._Subst({k: v for k, v in env.items() if k != "\0impure"}).visit(copy.deepcopy(st.value)) if st.value is not None else ast.Constant(None)
             if isinstance(st, ast.Raise) and st.exc is not None:
+                if env.get("\0impure"):
+                    return None
                 return ast.Call(func=ast.Name(id="raise_", ctx=ast.Load()), args=[norm._Subst(dict(env)).visit(copy.deepcopy(st.exc))], keywords=[])
             if isinstance(st, ast.If):
                 rest = stmts[i + 1:]
                 a = self._body_expr(list(st.body) + rest, env, depth + 1)
                 b_ = self._body_expr(list(st.orelse) + rest, env, depth + 1)
-                if a is None or b_ is None:
+                if a is None or b_ is None or env.get("\0impure"):
                     return None
                 return ast.IfExp(test=norm._Subst(dict(env)).visit(copy.deepcopy(st.test)), body=a, orelse=b_)
             return None
@@ -961,6 +985,10 @@ class _ExprNorm(ast.NodeTransformer):
             else:
                 elts.append(e)
         node.elts = elts
+        # [*(E for ..)] / [*[E for ..]] -> [E for ..]
+        if len(elts) == 1 and isinstance(elts[0], ast.Starred) and isinstance(elts[0].value, (ast.GeneratorExp, ast.ListComp)) and isinstance(node.ctx, ast.Load):
+            g = elts[0].value
+            return ast.copy_location(ast.ListComp(elt=g.elt, generators=g.generators), node)
         return node
 
     _fresh = [0]
@@ -1229,6 +1257,93 @@ class Canon:
         norm.FINAL_ATTRS.clear()
         norm.FINAL_ATTRS.update(self._final_attrs())
 
+    def _project_helper_objects(self, stmts, module):
+        """x = _Helper(a, b)  with _Helper a private dataclass the tables do not know (a record introduced by a refactoring):
+        x.field is the constructor argument, x[k] / x.m(k) the one-line accessor with the fields written in.  All or nothing: if x is
+        used in any other way the statements are left alone."""
+        known = known_defs()
+        stmts = list(stmts)
+        for i, s_ in enumerate(stmts):
+            if not (isinstance(s_, ast.Assign) and len(s_.targets) == 1 and isinstance(s_.targets[0], ast.Name) and isinstance(s_.value, ast.Call)
+                    and isinstance(s_.value.func, ast.Name)):
+                continue
+            cname, x = s_.value.func.id, s_.targets[0].id
+            c = module.classes.get(cname)
+            if c is None or not cname.startswith("_") or f"class:{cname}" in known or not c.is_dataclass \
+                    or any(n_ in c.methods for n_ in ("__init__", "__post_init__", "__new__", "__getattr__", "__setattr__")):
+                continue
+            params = [f.name for f in c.all_fields() if f.init and not f.classvar]
+            call = s_.value
+            if any(isinstance(a, ast.Starred) for a in call.args) or any(k.arg is None for k in call.keywords) or len(call.args) > len(params):
+                continue
+            vals = dict(zip(params, call.args))
+            vals.update({k.arg: k.value for k in call.keywords if k.arg in params})
+            if set(vals) != set(params) or not all(norm.is_pure(v, _PURE_EXT) for v in vals.values()):
+                continue
+            if sum(1 for b_ in stmts for n in ast.walk(b_) if isinstance(n, ast.Name) and n.id == x and not isinstance(n.ctx, ast.Load)) != 1:
+                continue
+            ok = [True]
+            canon = self
+
+            def accessor_body(mname, args):
+                m = c.methods.get(mname)
+                if m is None or m.decorator_list:
+                    return None
+                b_ = real_body(m)
+                ps = [a.arg for a in m.args.args]
+                if len(b_) != 1 or not isinstance(b_[0], ast.Return) or b_[0].value is None or len(ps) != len(args) + 1 or not norm.is_pure(b_[0].value, _PURE_EXT):
+                    return None
+                e = copy.deepcopy(b_[0].value)
+
+                class SelfProj(ast.NodeTransformer):
+                    def visit_Attribute(self, node):
+                        if isinstance(node.value, ast.Name) and node.value.id == ps[0] and node.attr in vals and isinstance(node.ctx, ast.Load):
+                            return copy.deepcopy(vals[node.attr])
+                        return self.generic_visit(node)
+                e = SelfProj().visit(e)
+                if any(isinstance(n, ast.Name) and n.id == ps[0] for n in ast.walk(e)):
+                    return None
+                return norm._Subst(dict(zip(ps[1:], args))).visit(e)
+
+            class P(ast.NodeTransformer):
+                def visit_Attribute(self, node):
+                    if isinstance(node.value, ast.Name) and node.value.id == x and isinstance(node.ctx, ast.Load):
+                        if node.attr in vals:
+                            return copy.deepcopy(vals[node.attr])
+                        ok[0] = False
+                        return node
+                    return self.generic_visit(node)
+
+                def visit_Subscript(self, node):
+                    if isinstance(node.value, ast.Name) and node.value.id == x and isinstance(node.ctx, ast.Load):
+                        e = accessor_body("__getitem__", [self.visit(node.slice)])
+                        if e is not None:
+                            return e
+                        ok[0] = False
+                        return node
+                    return self.generic_visit(node)
+
+                def visit_Call(self, node):
+                    if isinstance(node.func, ast.Attribute) and isinstance(node.func.value, ast.Name) and node.func.value.id == x and not node.keywords:
+                        e = accessor_body(node.func.attr, [self.visit(a) for a in node.args])
+                        if e is not None:
+                            return e
+                        ok[0] = False
+                        return node
+                    return self.generic_visit(node)
+
+                def visit_Name(self, node):
+                    if node.id == x and isinstance(node.ctx, ast.Load):
+                        ok[0] = False
+                    return node
+            rest = [P().visit(copy.deepcopy(b_)) for b_ in stmts[i + 1:]]
+            if ok[0]:
+                new = stmts[:i] + rest
+                for n_ in new:
+                    ast.fix_missing_locations(n_)
+                return self._project_helper_objects(new, module)
+        return stmts
+
     def _inline_unknown_constants(self, stmts, module, fn):
         """a private module-level literal the rule tables do not know (`_FLAG_ZSTD = 0b1`, added after they were written) is seen
         through like an unknown helper: its reads are replaced by the literal"""
@@ -1335,7 +1450,7 @@ class Canon:
         """a private method the rule tables do not know (added after they were written): canonical bodies see through it at
         every call site, so rules about entry points need not (and must not) judge it on its own"""
         known = known_defs()
-        return name.startswith("_") and not name.startswith("__") and f"{cls.name}.{name}" not in known and name not in known
+        return name.startswith("_") and not name.startswith("__") and not any(f"{b_.name}.{name}" in known for b_ in cls.mro)
 
     def _lookup(self, module, cls, fn, inline: set[str], keep: set[str], accessors: bool = False):
         known = known_defs()
@@ -1364,7 +1479,8 @@ class Canon:
                 _, m = k.find_method(name)
                 if m is None:
                     return None
-                if not (name in inline or (name.startswith("_") and not name.startswith("__") and f"{k.name}.{name}" not in known and name not in known)
+                if not (name in inline or (name.startswith("_") and not name.startswith("__") and f"{k.name}.{name}" not in known
+                                           and not any(f"{b_.name}.{name}" in known for b_ in k.mro))
                         or (accessors and f.value.id != "self" and not name.startswith("__") and accessor(m))):
                     return None
                 if any(u(d) in ("property", "staticmethod", "classmethod", "cached_property") for d in m.decorator_list):
@@ -1376,11 +1492,11 @@ class Canon:
                 name = f.id
                 if name in keep:
                     return None
-                if name in nested and (name in inline or name not in known):
+                if name in nested and (name in inline or f"fn:{name}" not in known):
                     return nested[name], False, prep
-                if name in module.functions and (name in inline or (name.startswith("_") and name not in known)):
+                if name in module.functions and (name in inline or (name.startswith("_") and f"fn:{name}" not in known)):
                     return module.functions[name], False, prep
-                if name in module.imports and (name in inline or (name.startswith("_") and not name.startswith("__") and name not in known)):
+                if name in module.imports and (name in inline or (name.startswith("_") and not name.startswith("__") and f"fn:{name}" not in known)):
                     try:
                         r = module.resolve(f)
                     except Exception:
@@ -1546,6 +1662,7 @@ class Canon:
         b = inl.rec(b, inl.depth, (fn.name,))
         b = self._inline_unknown_constants(b, module, fn)      # .. those read by the helpers that were just inlined
         b = norm.merge_display_building(b)
+        b = self._project_helper_objects(b, module)
         b = lift_walrus(lift_ifexp(b))          # conditional expressions returned by inlined helpers
         used = {n.id for s in b for n in ast.walk(s) if isinstance(n, ast.Name)} | {n.func.id for s in b for n in ast.walk(s) if isinstance(n, ast.Call) and isinstance(n.func, ast.Name)}
         b = [s for s in b if not (isinstance(s, ast.FunctionDef) and s.name not in used)]
